@@ -71,8 +71,24 @@ def gen_prog(rng: Rng, spec: Spec, cfg: dict, max_batches: int):
         p.u(root, spec.gen(rng, cfg, rng.choice(spec.sizes)))
         p.u(0, spec.gen(rng, cfg, rng.choice(spec.sizes)))   # later update of a source must not leak
     p.o(root)
+    if rng.random() < 0.2:
+        # float64 program: every batch in float64 and off the float32 grid (registry.f64_variant). States whose dtype
+        # follows the data must carry it through merge_state: the comparison below then runs at float64 precision,
+        # so a merge that rounds incoming float64 state to the target's float32 shows
+        from ..registry import f64_variant
+        p.ops = [(op[0], op[1], f64_variant(op[2])) if op[0] == "u" else op for op in p.ops]
+        p.flat = {k: [f64_variant(b) for b in v] for k, v in p.flat.items()}
+        p.f64 = True
     nonempty = len({o for o in owners})
     return p, root, shape, nonempty
+
+
+def tol_of(p) -> float:
+    """comparison tolerance of a program: the class's float32 tolerance, or float64 precision for float64 programs of
+    classes whose tolerance is the default one (classes with a wider declared tolerance keep it)."""
+    if getattr(p, "f64", False) and p.spec.tol <= 1e-5:
+        return 1e-11
+    return p.spec.tol
 
 
 def throughput_spec(p: Prog, root):
@@ -109,14 +125,14 @@ def oracle_check(rep: Report, p: Prog, root, shape, real_out):
     except Exception as e:  # noqa: BLE001
         return {"expected": f"single instance raised {e!r}", "expected_by": "single instance fed the live batches"}
     exp = observe(single)
-    if not same_obs(real_out, exp, spec.tol):
+    if not same_obs(real_out, exp, tol_of(p)):
         return {"expected": obs_json(exp), "expected_by": "single instance fed the live batches in merge order"}
     ordered_cfg = spec.name == "AUC" and p.cfg.get("reorder") is False
     if spec.kind in ("multiset", "minmax") and len(flat) > 1 and not ordered_cfg:
         rng = Rng(len(flat))
         sh = list(flat); rng.shuffle(sh)
         exp2 = observe(fed(spec, p.cfg, sh))
-        if not same_obs(real_out, exp2, spec.tol):
+        if not same_obs(real_out, exp2, tol_of(p)):
             return {"expected": obs_json(exp2), "expected_by": "single instance fed the live batches in another order"}
     return None
 
@@ -134,7 +150,7 @@ def verdict(rep, p: Prog, root, shape, res):
     if bad:
         return (f"C01|{spec.name}{finding_class(spec, p.cfg)}|merged-differs-from-single",
                 f"{spec.name}{public_cfg(p.cfg)}: merge tree ({shape}) gives {obs_json(real_out)} but {bad['expected_by']} gives {bad['expected']}",
-                {"program": p.describe(), "root": root, "shape": shape, "merged": obs_json(real_out), **bad})
+                {"program": p.describe(), "root": root, "shape": shape, "f64": bool(getattr(p, "f64", False)), "merged": obs_json(real_out), **bad})
     return None
 
 
@@ -201,6 +217,7 @@ def replay(payload) -> bool:
         raise ValueError(f"nothing to replay: payload kind {payload.get('kind')!r} carries no merge program")
     rp = payload["replay"]
     p = Prog.from_describe(rp["program"])
+    p.f64 = bool(rp.get("f64", False))          # float64 programs are compared at float64 precision (tol_of)
     if not p.ops or p.ops[-1][0] != "o":
         raise ValueError("nothing to replay: the recorded program does not end with a compute()")
     root = rp.get("root", p.ops[-1][1])
